@@ -453,8 +453,38 @@ ValueTypeCases ==
   {[cs EXCEPT !.prog = ValueTypeProgs(cs.prog), !.variants = [j \in 1..Len(cs.variants) |-> ValueTypeProgs(cs.variants[j])]]
    : cs \in LogicCases \cup CatTypeCases}
 
+\* ------------------------------------------------------------ F-multidim
+\* Multi-dimensional subscripts: a[i,j] is a[i SUBSEP j], with SUBSEP read each time a subscript is
+\* evaluated (so a key stored under one SUBSEP is not found under another), operands evaluated once
+\* and left to right, numbers converted like any number-to-string conversion; the same holds for
+\* (i,j) in a and delete a[i,j].  The equivalent spelling writes every subscript list as the
+\* concatenation it stands for.  $0 = "10 9 abc"
+MdOperands == { N(1), N(12), S(<<c_x>>), S(<<>>), V("u"), Fld(N(1)), Un("-", N(3)), Inc("++", FALSE, V("x")) }
+MdSeps == { <<28>>, <<COLON>>, <<>>, <<c_a, c_b>> }
+MdSub(es, asCat) ==
+  IF ~asCat THEN Multi(es)
+  ELSE LET RECURSIVE Go(_, _)
+           Go(j, acc) == IF j > Len(es) THEN acc ELSE Go(j + 1, Cc(Cc(acc, V("SUBSEP")), es[j]))
+       IN Go(2, es[1])
+MdProg(sep, i, j, asCat) ==
+  LET ij == MdSub(<<i, j>>, asCat)  ji == MdSub(<<j, i>>, asCat)  iji == MdSub(<<i, j, i>>, asCat)
+  IN BeginOnly(<<SExpr(Asg(Fld(N(0)), S(REC3)))>> \o
+               (IF sep = <<28>> THEN <<>> ELSE <<SExpr(Asg(V("SUBSEP"), S(sep)))>>) \o
+               <<SExpr(Asg(Idx("a", ij), N(7))),
+                 SPrint(<<InA(ij, "a"), InA(ji, "a"), InA(Cc(i, j), "a"), Bi("alength", <<V("a")>>)>>),
+                 SExpr(Inc("++", FALSE, Idx("a", ij))), SExpr(Aug("+", Idx("a", ij), N(2))), SPrint(<<Idx("a", ij), Bi("alength", <<V("a")>>)>>),
+                 SForIn("k", "a", <<SExpr(Asg(V("n"), Bin("+", V("n"), N(1))))>>), SPrint(<<V("n")>>),
+                 SExpr(Asg(V("SUBSEP"), S(<<MINUS>>))), SPrint(<<InA(ij, "a"), Bi("alength", <<V("a")>>)>>),
+                 SExpr(Asg(Idx("a", iji), N(1))), SPrint(<<Bi("alength", <<V("a")>>), InA(iji, "a"), InA(ij, "a")>>),
+                 SDel("a", iji), SPrint(<<Bi("alength", <<V("a")>>), InA(iji, "a")>>),
+                 SDel("a", ij), SPrint(<<Bi("alength", <<V("a")>>), V("x")>>)>>)
+MultiDimCases ==
+  {[fam |-> "multidim", mech |-> "multidim/subsep-" \o (IF sep = <<28>> THEN "default" ELSE IF sep = <<>> THEN "empty" ELSE IF Len(sep) = 1 THEN "char" ELSE "string"),
+    input |-> <<>>, prog |-> MdProg(sep, i, j, FALSE), variants |-> << MdProg(sep, i, j, TRUE) >>]
+   : sep \in MdSeps, i \in MdOperands, j \in MdOperands}
+
 Cases(fm) ==
-  CASE fm = "valuetype" -> ValueTypeCases [] fm = "builtins2" -> Builtins2Cases [] fm = "assign" -> AssignCases [] fm = "cond" -> CondCases [] fm = "loop" -> LoopCases
+  CASE fm = "multidim" -> MultiDimCases [] fm = "valuetype" -> ValueTypeCases [] fm = "builtins2" -> Builtins2Cases [] fm = "assign" -> AssignCases [] fm = "cond" -> CondCases [] fm = "loop" -> LoopCases
     [] fm = "concat" -> ConcatCases [] fm = "call" -> CallCases [] fm = "const" -> ConstCases
     [] fm = "pattern" -> PatternCases [] fm = "flow" -> FlowCases [] fm = "misc" -> MiscCases [] fm = "fracconst" -> FracCases
 
